@@ -303,7 +303,7 @@ def build_ocaml(name, extracted, glue=("glue_base.ml",), driver=None):
 
 # ------------------------------------------------------------------ running
 
-SAN_ENV = {"ASAN_OPTIONS": "exitcode=66:detect_leaks=1:abort_on_error=0:allocator_may_return_null=1",
+SAN_ENV = {"ASAN_OPTIONS": "exitcode=66:detect_leaks=1:abort_on_error=0:allocator_may_return_null=1:symbolize=0",
            "UBSAN_OPTIONS": "print_stacktrace=1:halt_on_error=1:exitcode=67",
            "LSAN_OPTIONS": "exitcode=68"}
 
